@@ -40,6 +40,7 @@ def run(ctx, repo):
         'proved over every table row, junction obligations for piecewise definitions (clamp bounds; exact Fraction '
         'evaluation at every threshold of every Tyrving cell), and complete order / bounds checks of every tabulated column '
         '(Sportshall as Decimals, Bulgarian over every integer key between min and max) and clamp orientation.')
+    ctx.rule('HIST', 'no history: scoring functions never change a shared table entry in place; memos are transparent')
     ctx.rule('ATH', 'combined events: field arms increase, time arm decreases, result clamped at 0 (facts: A>0, X>0 for all rows; age factors >0)')
     ctx.rule('HUN', 'Hungarian: a>0 for all rows, sign of b matches the kind; (perf+b)^2 has the right direction on the stated range; result clamped at 0')
     ctx.rule('TYR', 'Tyrving: race decreases, jump increases, piecewise-linear events non-decreasing across every threshold of every cell; '
@@ -47,12 +48,41 @@ def run(ctx, repo):
     ctx.rule('QK', 'QuadKids: step > 0 for all rows; direction by kind; clamp to 10..100')
     ctx.rule('SH', 'Sportshall: every column ordered in the scoring direction; beyond-table increments non-negative')
     ctx.rule('BUL', 'Bulgarian: every key between min and max present, values in 0..150 and weakly monotone; clamps oriented like min/max')
+    history(ctx, repo)
     athlon(ctx, repo)
     hungarian(ctx, repo, P)
     tyrving(ctx, repo)
     qkids(ctx, repo)
     sportshall(ctx, repo)
     bulgarian(ctx, repo)
+
+
+# ---------------------------------------------------------------- no history in the scoring functions
+def history(ctx, repo):
+    """monotonicity is stated for a fixed event/gender/age: the answer for one mark must not depend on earlier calls"""
+    from ..memo import shared_alias_mutations, analyse as memo_analyse
+    from ..props.c19 import module_mutables
+    n = 0
+    for rel, quals in ((ATH, ['score', 'performance']), (HUN, ['score', 'get_lookup_table']), (TYR, ['tyrving_score', 'TyrvingCalculator.points',
+                       'TyrvingCalculator.race_points', 'TyrvingCalculator.jump_points', 'TyrvingCalculator.stav_points', 'TyrvingCalculator.get_base_perf']),
+                       (QK, ['qkids_score']), (SH, ['sportshall_score', 'score_high_event', 'score_low_event']), (BUL, ['score'])):
+        mod = repo.module(rel)
+        mm = set(module_mutables(mod)) | {t.id for st in mod.tree.body if isinstance(st, ast.Assign) for t in st.targets if isinstance(t, ast.Name)}
+        for q in quals:
+            if not mod.has_func(q):
+                raise AnalysisError('anchor vanished: %s in %s' % (q, rel))
+            fn = mod.func(q)
+            n += 1
+            for msg, node in shared_alias_mutations(fn, mm):
+                ctx.finding('HIST', '%s::%s::shared table entry changed in place' % (rel, q), rel, node.lineno,
+                            msg + ': the same mark scores differently before and after, and a better mark can then score less',
+                            'a call with the special option first, then an ordinary call')
+            res, memos = memo_analyse(fn, mm)
+            for rule, msg, node in res:
+                ctx.finding('HIST', '%s::%s::memo %s' % (rel, q, rule), rel, node.lineno, msg)
+    ctx.count('scoring functions examined for history dependence', n)
+    if not any(f.rule == 'HIST' for f in ctx.findings):
+        ctx.ok('HIST', '%d scoring functions: no shared table entry changed in place, memos transparent' % n)
 
 
 # ---------------------------------------------------------------- athlon
